@@ -276,6 +276,9 @@ def run_case(ctx, case):
             with np.errstate(**ERRSTATES[(len(case['history']) + step) % len(ERRSTATES)]), warnings.catch_warnings():
                 warnings.simplefilter('ignore')
                 errstate_inside = np.geterr()
+                np.set_printoptions(precision=8 - (step % 2))          # the user's own settings vary, so that a call which sets its own is seen
+                np.random.random()          # advance the process-wide generator, so that a re-seeding inside the call cannot restore the same state
+                glob_before = (np.get_printoptions(), hash(np.random.get_state()[1].tobytes()), tuple(warnings.filters[:3]))
                 if op in CALC:
                     ctx.hook('op.calc')
                     fn, kw = CALC[op]
@@ -299,6 +302,7 @@ def run_case(ctx, case):
                         raise core.Skip('re-solve from own solution did not converge')
                     resolved = True
                 errstate_after = np.geterr()
+                glob_after = (np.get_printoptions(), hash(np.random.get_state()[1].tobytes()), tuple(warnings.filters[:3]))
         except core.Skip:
             raise
         except Exception as e:   # noqa
@@ -313,6 +317,10 @@ def run_case(ctx, case):
         ctx.hook('global_fp_state_check')
         if errstate_after != errstate_inside:
             ctx.violation('hist:%s-changes-numpy-error-state' % (CALC[op][0] if op in CALC else op), '%s: numpy error state was %r before the call and is %r after it' % (where, errstate_inside, errstate_after))
+            return
+        if op != 'resolve' and glob_after != glob_before:
+            which = [n for n, a, b in zip(('numpy print options', 'numpy global random state', 'warnings filters'), glob_before, glob_after) if a != b]
+            ctx.violation('hist:%s-changes-global-state' % (CALC[op][0] if op in CALC else op), '%s: the call changed process-wide state it does not own: %s' % (where, ', '.join(which)))
             return
         # ---- (0b) the documented attribute PRISM.pairCorr, once it exists, is g(r) of the solved state
         pc = getattr(p, 'pairCorr', None)
